@@ -6,6 +6,8 @@ import (
 	"errors"
 	"flag"
 	"fmt"
+	"io"
+	"log/slog"
 	"net/http"
 	"net/http/httptest"
 	"runtime"
@@ -410,10 +412,14 @@ func cmdServe(args []string) {
 	res := newResult()
 	nseq := eachLine(*in, 1, func(line []byte, idx int) {
 		var seq struct {
-			Ops []svOp `json:"ops"`
+			Ops    []svOp `json:"ops"`
+			Logger string `json:"logger,omitempty"` // "unset" | "nil" | "set": Server.Logger (chosen by the driver, kept in replay files)
 		}
 		if err := json.Unmarshal(line, &seq); err != nil {
 			fatal("bad sequence: %v", err)
+		}
+		if seq.Logger == "" {
+			seq.Logger = []string{"unset", "nil", "set"}[idx%3]
 		}
 		shapes := []string{"flusher", "flusherr", "wrap2"}
 		if len(seq.Ops) > 1 {
@@ -465,6 +471,13 @@ func cmdServe(args []string) {
 					p.err = fmt.Errorf("%w: %w", errProvider, context.Canceled)
 				}
 				s := &sse.Server{Provider: p}
+				// logging is an observer: with or without a logger the request is served the same way
+				switch seq.Logger {
+				case "nil":
+					s.Logger = func(*http.Request) *slog.Logger { return nil }
+				case "set":
+					s.Logger = func(*http.Request) *slog.Logger { return slog.New(slog.NewTextHandler(io.Discard, nil)) }
+				}
 				called := false
 				switch cs.C.OnSession {
 				case "reject":
